@@ -113,6 +113,9 @@ def run_block(stmts, env, max_steps=2000):
                 v = evaluate(s.value, env)
                 for tg in s.targets: assign(tg, v)
                 continue
+            if isinstance(s, ast.Assert):
+                if not evaluate(s.test, env): raise Raised("AssertionError")
+                continue
             if isinstance(s, ast.AugAssign) and isinstance(s.op, ast.Add) and isinstance(s.target, ast.Name):
                 env[s.target.id] = evaluate(s.target, env) + evaluate(s.value, env); continue
             if isinstance(s, ast.If):
